@@ -187,7 +187,7 @@ func Run(r *ev.Run) {
 	defer os.RemoveAll(w.dir)
 
 	per := intEnv("VERIF_C14_N", r.Pick(3000, 100000))
-	chunk := intEnv("VERIF_C14_CHUNK", r.Pick(3000, 10000))
+	chunk := intEnv("VERIF_C14_CHUNK", r.Pick(1000, 10000))
 	workers := intEnv("VERIF_C14_WORKERS", 12)
 	sel := os.Getenv("VERIF_C14_TARGETS")
 
@@ -615,9 +615,29 @@ func (m *monitor) consume(t *target, chunk int, ins []input, jp jparsed) jlast {
 				r.SetAdd("panic_sites", pi.Fn+" "+pi.Class)
 			}
 		}
+		outcomeAlloc := false
+		_ = outcomeAlloc
 		r.Distinct(t.name + "|" + outcome + "|" + in.class)
-		if rec.alloc > allocLimit(len(in.data)) {
-			m.addSuspect(suspect{kind: "alloc", t: t, in: in, warm: ins[0], chunk: chunk, idx: rec.idx, seen: rec.alloc})
+		if rec.alloc > allocLimit(len(in.data)) && rec.kind != 'p' {
+			// the child repeated the call between two memory-profile snapshots ("A" record)
+			if a, ok := jp.allocAt[rec.idx]; ok {
+				p := strings.SplitN(a, " ", 2)
+				alloc2, _ := strconv.ParseUint(p[0], 10, 64)
+				site := "?"
+				if len(p) == 2 {
+					site = p[1]
+				}
+				if alloc2 > allocLimit(len(in.data)) {
+					r.Violation(fmt.Sprintf("alloc target=%s site=%s", t.name, site), m.detail(t, chunk, rec.idx, in, map[string]interface{}{
+						"allocated_bytes": rec.alloc, "allocated_bytes_on_repeat": alloc2, "bound_bytes": allocLimit(len(in.data))}))
+					r.SetAdd("alloc_sites", site)
+					outcomeAlloc = true
+				} else {
+					r.Count("alloc_over_bound_not_reproduced_on_repeat", 1)
+				}
+			} else {
+				r.Count("alloc_over_bound_without_repeat_record", 1)
+			}
 		}
 		if rec.cpu > cpuLimitMicros(len(in.data)) {
 			m.addSuspect(suspect{kind: "cpu", t: t, in: in, warm: ins[0], chunk: chunk, idx: rec.idx, seen: uint64(rec.cpu)})
@@ -632,7 +652,7 @@ func (m *monitor) consume(t *target, chunk int, ins []input, jp jparsed) jlast {
 func (m *monitor) addSuspect(s suspect) {
 	m.mu.Lock()
 	defer m.mu.Unlock()
-	key := s.kind + "|" + s.t.name + "|" + s.in.class
+	key := s.kind + "|" + s.t.name
 	if m.susKeys[key] >= 2 {
 		m.r.Count("suspects_not_reconfirmed_same_class", 1)
 		return
